@@ -47,6 +47,77 @@ def export_real(lines, bin_bytes: bytes, bin_name: str = "disc.bin"):
         shutil.rmtree(d, ignore_errors=True)
 
 
+def export_real_sparse(lines, base_off: int, tail: bytes, bin_name: str = "disc.bin"):
+    """as export_real, for a bin that is `base_off` zero bytes (a hole: nothing is written) followed by `tail`."""
+    from smpl_extract import actions as A
+
+    d = tempfile.mkdtemp(prefix="verif_c03_")
+    try:
+        with open(os.path.join(d, bin_name), "wb") as f:
+            f.seek(base_off)
+            f.write(tail)
+        cue = os.path.join(d, "disc.cue")
+        with open(cue, "w", encoding="ascii", newline="") as f:
+            f.write("".join(lines))
+        out = os.path.join(d, "out")
+        os.makedirs(out)
+        buf = io.StringIO()
+        with contextlib.redirect_stdout(buf):
+            A.export_samples_to_wav(cue, out)
+        files = {}
+        for root, _, names in os.walk(out):
+            for n in names:
+                p = os.path.join(root, n)
+                files[os.path.relpath(p, out)] = open(p, "rb").read()
+        return files, buf.getvalue()
+    finally:
+        shutil.rmtree(d, ignore_errors=True)
+
+
+def oracle_far(rep: Report, rng):
+    """S124: tracks that start 100 minutes and more into the bin (three-digit minute fields; a sparse bin)."""
+    nt = rng.randint(1, 5)
+    base = rng.choice([100 * 60 * 75 - rng.randint(0, 20), rng.randint(100 * 60 * 75, 140 * 60 * 75)])
+    lines = ['FILE "disc.bin" BINARY\n']
+    firsts, titles, cur = [], [], base
+    for k in range(1, nt + 1):
+        lines.append(f"  TRACK {k:02d} AUDIO\n")
+        t = f"Far {k}"
+        lines.append(f'    TITLE "{t}"\n')
+        titles.append(t)
+        pos = cur
+        for j in range(rng.randint(1, 2)):
+            lines.append(f"    INDEX {j:02d} {FC.msf(pos)}\n")
+            if j == 0:
+                firsts.append(pos)
+            pos += rng.randint(1, 3)
+        cur = pos + rng.randint(0, 30)
+    tail_len = 2352 * (firsts[-1] - base) + rng.choice([1, 4, 2351, 2352, 4000])
+    tail = bytes(rng.randrange(256) for _ in range(tail_len))
+    detail = {"lines": lines, "base_frame": base, "tail_len": tail_len, "firsts": firsts}
+    try:
+        files, out = export_real_sparse(lines, 2352 * base, tail)
+    except Exception as e:
+        rep.findings.append(Finding("cdda-far-export-crash", dict(detail, error=repr(e))))
+        return
+    if len(files) != nt:
+        rep.findings.append(Finding("cdda-far-track-count", dict(detail, files=sorted(files), stdout=out[:300])))
+        return
+    for k, (fr, title) in enumerate(zip(firsts, titles)):
+        name = title + ".wav"
+        if name not in files:
+            rep.findings.append(Finding("cdda-far-track-name", dict(detail, missing=name)))
+            return
+        ch, rate, width, pcm = pcm_of(files[name])
+        off = 2352 * (fr - base)
+        end = 2352 * (firsts[k + 1] - base) if k + 1 < nt else tail_len
+        want = tail[off:end]
+        want = want[: len(want) // 4 * 4]
+        if (ch, rate, width) != (2, 44100, 2) or pcm != want:
+            rep.findings.append(Finding("cdda-far-track-pcm", dict(detail, track=k, got_len=len(pcm), want_len=len(want))))
+            return
+
+
 def pcm_of(wav: bytes):
     """(channels, rate, width, raw bytes of the data chunk) — the chunk is read raw so that a partial
     trailing frame is seen (stdlib wave would silently floor it away)."""
@@ -146,6 +217,10 @@ def run(ctx, rep: Report, deep: bool = False):
         rep.feat(f"tail_{tail if tail in (1, 3, 4, 2351, 2352, 2353) else 'random'}")
         if nt >= 2:
             rep.feat("multi_track")
+    for i in range(ctx.n(6, 60)):
+        oracle_far(rep, rng)
+        rep.evaluations += 1
+        rep.feat("tracks_100_minutes_and_more")
     # odd sheets: windows only (model vs implementation)
     for i in range(ctx.n(150, 1500)):
         lines, firsts = FC.canonical(rng, rng.randint(1, 5))
@@ -174,7 +249,7 @@ def run(ctx, rep: Report, deep: bool = False):
         rep.feat("odd_sheets")
     if ctx.model_available:
         compare_family(rep, "cdda", [c for c in cases if c.impl != "skip"], nontrivial=lambda c: c.impl.count(";") >= 2)
-    rep.required_features = ["pairs_exported", "multi_track", "odd_sheets", "tail_2352", "tail_3", "track_numbers_out_of_order"]
+    rep.required_features = ["pairs_exported", "multi_track", "odd_sheets", "tail_2352", "tail_3", "track_numbers_out_of_order", "tracks_100_minutes_and_more"]
 
 
 def search(ctx, rep: Report):
